@@ -170,7 +170,8 @@ Plan(o, S) ==
          IF o.i \in db.ids THEN [prog |-> NewKeyProg(o.k, o.t), res |-> NoRes("ok")]
          ELSE [prog |-> <<>>, res |-> NoRes("keyerr")]
     [] o.op = "ImportCert" ->
-         IF <<o.k, 2>> \in db.certs THEN [prog |-> <<>>, res |-> NoRes("integrity")]
+         \* (the INSERT is attempted - a fault point - and refused by the UNIQUE index)
+         IF <<o.k, 2>> \in db.certs THEN [prog |-> << Stp("insRefused", TRUE) >>, res |-> NoRes("integrity")]
          ELSE [prog |-> << SC("insCert", <<o.k, 2>>), Commit >>, res |-> NoRes("ok")]
     [] o.op = "SetDefId" -> [prog |-> << SI("updId", o.i), Commit >>, res |-> NoRes("ok")]
     [] o.op = "SetDefKey" -> [prog |-> << SK("updKey", o.k), Commit >>, res |-> NoRes("ok")]
